@@ -299,7 +299,10 @@ def run_case(case, ctx):
             return {"sig": None, "labels": ["irregular-looks-regular-skipped"]}
         writes = record(lambda: conv.segy_convert(S.path, out, rate, bs, header_detection=case["mode"]))
     n = check_images(case, ctx, writes, out, d)
-    return {"sig": None, "labels": [route, case["mode"], f"writes={min(len(writes), 20)}"]}
+    case.pop("point", None)
+    case.pop("obs", None)
+    case["n_writes"], case["crash_points_evaluated"] = len(writes), n
+    return {"sig": ["run", route, case["mode"], case["setting"], len(writes)], "labels": [route, case["mode"], f"writes={min(len(writes), 20)}"]}
 
 
 def shard_main(ctx):
